@@ -36,6 +36,11 @@ func (s *PackScanner) loadIdxFile(idx billy.File) error {
 		return fmt.Errorf("malformed idx file: %w", err)
 	}
 
+	if err := validateIdxLayout(mmap, s.hashSize); err != nil {
+		_ = cleanup()
+		return fmt.Errorf("malformed idx file: %w", err)
+	}
+
 	s.idxCleanup = cleanup
 	s.idxMmap = mmap
 
@@ -46,6 +51,34 @@ func (s *PackScanner) loadIdxFile(idx billy.File) error {
 	s.off32Start = s.crcStart + (s.count * idxCrcSize)
 	s.off64Start = s.off32Start + (s.count * off32Size)
 	s.trailerStart = len(s.idxMmap) - 2*s.hashSize
+
+	return nil
+}
+
+// validateIdxLayout checks that the fan-out table is monotonic and that
+// the file size matches the object count it declares, mirroring the size
+// formula of canonical Git's load_idx (and idxfile.Decoder). Without it
+// the table offsets derived from the count may point outside the mapping.
+func validateIdxLayout(mmap []byte, hashSize int) error {
+	var prev uint32
+	for i := range idxFanoutSize / 4 {
+		n := binary.BigEndian.Uint32(mmap[idxHeaderSize+i*4:])
+		if n < prev {
+			return fmt.Errorf("%w: fanout table is not monotonic at entry %d", ErrCorruptedIdx, i)
+		}
+		prev = n
+	}
+
+	count := uint64(prev)
+	minSize := uint64(idxHeaderSize+idxFanoutSize) +
+		count*uint64(hashSize+idxCrcSize+off32Size) + uint64(2*hashSize)
+	maxSize := minSize
+	if count > 0 {
+		maxSize += (count - 1) * off64Size
+	}
+	if size := uint64(len(mmap)); size < minSize || size > maxSize {
+		return fmt.Errorf("%w: file size %d is inconsistent with object count %d", ErrCorruptedIdx, size, count)
+	}
 
 	return nil
 }
